@@ -213,7 +213,7 @@ func TestProp(t *testing.T) {
 	rec.Assume("generated strings never end in space/newline/NUL (no trim rule assumed); no interior NULs")
 	rec.Assume("at most one serial-number source unless both are equal (a record has one serial number; with two different ones the first one read wins)")
 	rec.Assume("main check: directories <= 85 entries and values <= 1024 bytes so that the same file is valid for the unbuffered exif2.Parse path (directories up to 128 entries and longer values are separate checks); <= 84 out-of-line references pending at any time")
-	rec.Assume("CameraModel enum asserted only when the Make value precedes the Model value in the file (writers emit values in tag order)")
+	rec.Assume("Make and Model are reported by the library's canonical names where it knows them (\"NIKON CORPORATION\" => \"Nikon\"): the generator's known models are those whose documented name is their own text; the CameraModel enum is asserted for either order of the two values")
 	rec.Rule("entry limit: one directory filled with embedded-value foreign tags to 128, 127, 126, 118 or 100 entries (entry points that read through a bufio.Reader) and to 85, 84, 83, 75 or 57 entries (every entry point incl. exif2.Parse on a plain reader, whose scratch buffer holds 85 entries)")
 	rec.Rule("exhaustive shift: records drawn from VERIF_SEED (plain, and writer-like with > 84 consumed + pending tags), re-encoded with IFD0 at every offset 8..N (N = 4500 quick, 12700 thorough): every directory, value and sub-directory of the block crosses every 1 KiB scratch and 4 KiB reader-buffer boundary at every phase")
 	pbt.RegressDir(t, rec)
